@@ -61,8 +61,9 @@ class Timing:
         """Index function = package callee whose result subscripts self.events in Q; seconds formula = package
         callee whose result feeds a timedelta(seconds=...) in Q."""
         ctx = self.ctx
-        for e in self.qs.rets():
-            for t in subterms(e.value):
+        roots = [e.value for e in self.qs.exits] + [a for e in self.qs.exits for a, _ in e.cond]
+        for root in roots:
+            for t in subterms(root):
                 if t[0] == "sub" and t[1] == ("attr", SELF, "events") and t[2][0] == "call" and t[2][1][0] == "func":
                     self.idxf = ctx.prog.functions.get(t[2][1][1])
                 if t[0] == "call" and t[1] == TIMEDELTA:
@@ -70,12 +71,18 @@ class Timing:
                         for u in subterms(v):
                             if u[0] == "call" and u[1][0] == "func" and self.secf is None:
                                 self.secf = ctx.prog.functions.get(u[1][1])
-        if self.secf is None:
-            # the formula may have been inlined or renamed: look for any package callee returning Seconds/float
+        if self.idxf is None:
+            # fall back: a method of the tempo map called by the query with the query's own (tick, hint)
             for c in self.qs.calls:
-                if c.fn[0] == "func":
+                if c.fn[0] == "func" and c.fn[1].startswith(BPMEVENTS + ".") and c.fn[1] != Q and not c.inlined:
                     f = ctx.prog.functions.get(c.fn[1])
-                    if f is not None and f.module.name == "chartparse.tick" and f is not self.idxf:
+                    if f is not None and len(f.params()) >= 3:
+                        self.idxf = f
+        if self.secf is None:
+            for c in self.qs.calls:
+                if c.fn[0] == "func" and not c.inlined:
+                    f = ctx.prog.functions.get(c.fn[1])
+                    if f is not None and f.cls is None and f is not self.idxf and len(f.params()) == 3:
                         self.secf = f
 
     # ------------------------------------------------------------------ Q
@@ -139,7 +146,9 @@ class Timing:
         """P1: sec = 60*ticks/(bpm*resolution) as a rational function; only IEEE * and /; k <= 8 roundings."""
         ctx, f = self.ctx, self.secf
         if f is None:
-            raise AnalysisError("seconds formula not discovered")
+            fail(r, ctx, self.qf, self.qf.node, "cannot find the seconds formula: no package function feeds "
+                                                "timedelta(seconds=...) in the tick-to-time query")
+            return
         s = ctx.summary(f)
         ps = f.params()
         rets = s.rets()
@@ -180,7 +189,9 @@ class Timing:
     def check_sec_guards(self, r: Rule) -> None:
         """C15: sec rejects ticks<0, bpm<=0, resolution<=0 with ValueError before any return, and nothing else."""
         ctx, f = self.ctx, self.secf
-        assert f is not None
+        if f is None:
+            fail(r, ctx, self.qf, self.qf.node, "cannot find the guarded seconds formula in the tick-to-time query")
+            return
         s = ctx.summary(f)
         atoms = self.sec_guard_atoms()
         rows, unknown = decision_table(live_exits(s), atoms)
@@ -210,7 +221,9 @@ class Timing:
     def check_sec_monotone(self, r: Rule) -> None:
         """C12: every float step of sec is monotone non-decreasing in ticks when bpm, resolution > 0."""
         ctx, f = self.ctx, self.secf
-        assert f is not None
+        if f is None:
+            fail(r, ctx, self.qf, self.qf.node, "cannot find the seconds formula in the tick-to-time query")
+            return
         s = ctx.summary(f)
         ps = f.params()
         for e in s.rets():
@@ -236,9 +249,15 @@ class Timing:
         """C11 G1/G2 + S2 scan; C15 (tick before events[h] rejected)."""
         ctx, f = self.ctx, self.idxf
         if f is None:
-            raise AnalysisError("index function not discovered")
+            fail(r_guards, ctx, self.qf, self.qf.node, "cannot find the governing-event lookup: the tick-to-time query no "
+                                                       "longer subscripts self.events with the result of one guarded index "
+                                                       "function on every path")
+            return
         s = ctx.summary(f)
         ps = f.params()
+        if len(ps) < 3:
+            fail(r_guards, ctx, f, f.node, f"index function signature {ps} is not (self, tick, hint)")
+            return
         tick, h = ("param", ps[1]), ("param", ps[2])
         EV = ("attr", SELF, "events")
         LEN = ("call", ("builtin", "len"), (EV,), ())
@@ -376,7 +395,9 @@ class Timing:
                     fail(r, ctx, f, e.node, f"first tempo event must be at exactly time zero; found {show(ts)[:120]}")
             else:
                 if self.secf is None:
-                    raise AnalysisError("seconds formula not discovered")
+                    fail(r, ctx, f, e.node, "seconds formula not found in the tick-to-time query; cannot relate the "
+                                            "accumulation to it")
+                    continue
                 SEC = self.sec_call(delta_forms(("attr", prev, "tick"), ("attr", data, "tick")), ("attr", prev, "bpm"), res)
                 pat = ("?sym", "+", ("attr", prev, "timestamp"), td_seconds(SEC))
                 if match(pat, ts) is None:
